@@ -98,6 +98,7 @@ type op struct {
 	start    time.Time
 	startStep int
 	canceled bool
+	raced    bool // its response was released and then its ctx cancelled within one step
 
 	// written by the op goroutine under world.mu
 	returned bool
@@ -708,7 +709,13 @@ func (w *world) judge(o *op) {
 	r := w.r
 	o.outcome = errClass(o.err, o)
 	r.Probe(map[int]string{kindCall: "call.", kindSend: "send.", kindNotify: "notify."}[o.kind] + o.outcome)
-	r.Logf("  done %s -> %s", o.tag, o.outcome)
+	if o.raced && (o.outcome == "ok" || o.outcome == "canceled") {
+		// response released and cancellation issued in one step, in that order:
+		// either is a correct outcome and the Go runtime picks
+		r.Logf("  done %s -> ok|canceled", o.tag)
+	} else {
+		r.Logf("  done %s -> %s", o.tag, o.outcome)
+	}
 	if o.kind != kindCall {
 		return
 	}
@@ -1087,6 +1094,12 @@ func (w *world) collect() []simkit.Action {
 			}})
 		}
 	}
+	// a cancellation that lands in the same step as the delivery of the call's own
+	// response: the caller's ctx.Done and the connection's Complete(id) are in flight
+	// together, with no quiescent state between them
+	if rc := w.raceCandidates(now); len(rc) > 0 {
+		acts = append(acts, simkit.Action{Prio: 2, Key: "cancel+deliver", Weight: 2 + 2*c.CancelBias, Do: func() { w.cancelRacingResponse(rc) }})
+	}
 	// time
 	acts = append(acts, simkit.Action{Prio: 3, Key: "tick 1ms", Weight: 3, Do: func() { time.Sleep(w.skewed(time.Millisecond)) }})
 	acts = append(acts, simkit.Action{Prio: 3, Key: "tick 40ms", Weight: 2, Do: func() { time.Sleep(w.skewed(40 * time.Millisecond)) }})
@@ -1143,6 +1156,74 @@ func (w *world) collect() []simkit.Action {
 		}})
 	}
 	return acts
+}
+
+type raceCand struct {
+	o *op
+	d *dirState
+	f *frameInfo
+}
+
+// raceCandidates lists pending calls whose own response frame is the next frame
+// to complete on a deliverable s2c stream (in op id order).
+func (w *world) raceCandidates(now time.Time) []raceCand {
+	var out []raceCand
+	w.mu.Lock()
+	defer w.mu.Unlock()
+	for _, o := range w.ops {
+		if o.done || o.canceled || o.kind != kindCall || o.conn == nil || !o.respSeen {
+			continue
+		}
+		d := o.conn.s2c
+		if d.reset || d.readerClosed || now.Before(d.stalledUntil) || d.badHdrEnd >= 0 {
+			continue
+		}
+		for _, f := range d.frames {
+			if f.end <= d.delivered {
+				continue
+			}
+			// f is the first frame not yet fully delivered
+			if f.op == o && f.complete && !f.mutated && len(d.buf) >= f.end {
+				out = append(out, raceCand{o, d, f})
+			}
+			break
+		}
+	}
+	return out
+}
+
+// cancelRacingResponse cancels one call and delivers the rest of its response
+// frame inside one step. Which of the two the caller's select observes first is
+// fixed when the cancellation is issued first (it wins: the call must return
+// ErrCanceled and the response must reach nobody) and is left to the Go runtime
+// when the bytes are released first; such a call is logged by the neutral class
+// "ok|canceled" so that the rest of the trace stays a function of the tape.
+func (w *world) cancelRacingResponse(cands []raceCand) {
+	r := w.r
+	rc := cands[r.Tape.Intn(len(cands))]
+	deliverFirst := r.Tape.Weighted([]int{3, 1}) == 1
+	o, d, f := rc.o, rc.d, rc.f
+	release := func() {
+		w.mu.Lock()
+		n := f.end - d.delivered
+		d.delivered = f.end
+		wake(&d.dataCh)
+		w.mu.Unlock()
+		r.Logf("  +%d bytes (%d/%d delivered, frame end)", n, f.end, len(d.buf))
+	}
+	o.canceled = true
+	w.softFaults++
+	r.Probe("cancel_races_own_response")
+	if deliverFirst {
+		o.raced = true
+		r.Logf("  deliver the response of %s on c%d, then cancel it in the same step", o.tag, d.c.id)
+		release()
+		o.cancel()
+		return
+	}
+	r.Logf("  cancel %s, then deliver its response on c%d in the same step", o.tag, d.c.id)
+	o.cancel()
+	release()
 }
 
 func (w *world) freeSlots() []int {
